@@ -10,6 +10,9 @@ Three independent legs, all must agree (DESIGN §4 C01):
  3. kwarg normalisation: coefficient as DOF vector == interpolate() result == raw (nel x nq) array, bit-identical;
     serial == threaded (bitwise); complex dtype.
 Integrands are drawn from a grammar stored as data so the same term list builds all form types.
+ 4. lists of bases (family basis-lists, and the same domain listed n times in every asm-* case): skfem.asm(form, [b1, ..]),
+    asm(form, [trial bases], [test bases]) (all pairs), sums of separately assembled results and of .coo_data()/.elemental()
+    blocks + .todefault() for 0-, 1- and 2-tensors equal the SUM over the listed bases of the own dense reference.
 """
 from __future__ import annotations
 
@@ -24,7 +27,9 @@ RULE = ("random meshes (all cell kinds, renumbered, distorted, second-order/curv
         "vector/DG/composite wrappers x basis kind (CellBasis, CellBasis(elements=S), FacetBasis on boundary / facet "
         "subset / interior facets side 1, InteriorFacetBasis side 0/1) x equal or different test element x 1-3 "
         "grammar terms c(w)*D1(u)*D2(v); distinct key = (mesh class, trial, test, basis kind, term signature, dtype); "
-        "non-trivial iff nnz > 0 and (trial != test or the matrix is unsymmetric)")
+        "non-trivial iff nnz > 0 and (trial != test or the matrix is unsymmetric); lists of 1-3 bases (partition of cells, "
+        "both sides of interior facets, boundary + interior facets, cells + facets, overlapping subsets, same object twice, "
+        "bases of two meshes) through asm(form, [..]) / all pairs / COOData sums, key = (mesh class, trial, test, composition, length)")
 TRACK = ["skfem.assembly.form.bilinear_form:BilinearForm._assemble",
          "skfem.assembly.form.linear_form:LinearForm._assemble",
          "skfem.assembly.form.functional:Functional.elemental",
@@ -37,12 +42,19 @@ TRACK = ["skfem.assembly.form.bilinear_form:BilinearForm._assemble",
 REQUIRED_MONITORS = ["matrix-vs-dense-reference", "vector-vs-dense-reference", "vTAu-equals-functional",
                      "linearform-equals-Au", "functional-vs-own-sum", "interpolate-vs-own", "elemental-sums",
                      "shape-test-by-trial", "kwarg-spellings-bitwise", "threaded-equals-serial", "complex-dtype",
-                     "trilinear-contraction", "with-element-same-domain"]
+                     "trilinear-contraction", "with-element-same-domain", "list-matrix-vs-own-sum", "list-vector-vs-own-sum",
+                     "list-scalar-vs-own-sum", "list-forms-agree"]
 REQUIRED_REACH = ["kwarg:updated-in-place", "kwarg:overrides-default", "basis:cell", "basis:cell-subset", "basis:facet-boundary", "basis:facet-subset",
                   "basis:facet-interior-side1", "basis:interior-side0", "basis:interior-side1", "trial!=test",
                   "kwarg:dofvector", "kwarg:discretefield", "kwarg:rawarray", "kwarg:scalar", "coef:n", "coef:h", "coef:x",
                   "bare-parameter-integrands", "trial-side0-test-side1", "oriented-facet-set", "kwarg:scalar-types",
-                  "empty-domain", "form-construction-spellings"]
+                  "empty-domain", "form-construction-spellings",
+                  "list:len1", "list:len2", "list:len3", "list:cell-partition", "list:two-sides", "list:boundary+interior",
+                  "list:cell+facet", "list:overlap", "list:same-object-twice", "list:trial!=test", "list:asm-all-three",
+                  "list:all-pairs", "list:coo-sum-0tensor", "list:coo-sum-1tensor", "list:coo-sum-2tensor", "list:mixed-meshes",
+                  "list:idx-coefficient", "list:dofvector-parameter"] + ["list:repeated-domain:" + _b for _b in
+                                                                         ("cell", "cell-subset", "facet-boundary", "facet-subset",
+                                                                          "facet-interior-side1", "interior-side0", "interior-side1")]
 
 FIELDS = ("value", "grad", "div", "curl", "hess")
 
@@ -96,6 +108,8 @@ def coef_eval(coef, w):
         return arr
     if kind == "imag":
         return 1j
+    if kind == "jump":      # the sign skfem.helpers.jump takes from asm()'s product index w.idx
+        return (-1.0) ** int(sum(w["idx"]))
     raise ValueError(coef)
 
 
@@ -362,6 +376,24 @@ def one_case(ctx, k, kind):
     Ael = skfem.BilinearForm(bil, dtype=dtype).elemental(ub, vb, **dict(kwargs)).todefault()
     ctx.check("elemental-sums", (abs(Ael - A)).max() == 0 if Ael.nnz or A.nnz else True, mech="bilinear-elemental", **tag)
 
+    # the same domain listed n times through skfem.asm: the sum over the listed bases, in all three form types
+    nrep = 1 + k % 3
+    sn = skfem.asm(skfem.Functional(fun, dtype=dtype), [ub] * nrep, cu=cu, cv=cv, **dict(kwargs))
+    if ctx.check("list-scalar-vs-own-sum", np.ndim(sn) == 0, mech="list:functional:repeated-domain:shape", shape=np.shape(sn), n=nrep, **tag):
+        ctx.close("list-scalar-vs-own-sum", sn, nrep * (v @ (Aref @ u)), rtol=1e-10, scale=nrep * big,
+                  mech="list:functional:repeated-domain", n=nrep, **tag)
+        ctx.close("list-forms-agree", sn, nrep * s, rtol=1e-12, scale=nrep * big, mech="list:functional:repeated-domain-vs-single",
+                  n=nrep, **tag)
+    bn = skfem.asm(skfem.LinearForm(lin, dtype=dtype), [vb] * nrep, cu=cu, **dict(kwargs))
+    ctx.close("list-vector-vs-own-sum", bn, nrep * (Aref @ u), rtol=1e-10, scale=nrep * (float(sb.max()) + 1e-300),
+              mech="list:linear:repeated-domain", n=nrep, **tag)
+    if k % 2 == 1:
+        An = skfem.asm(skfem.BilinearForm(bil, dtype=dtype), [ub] * nrep, *([[vb]] if different else []), **dict(kwargs))
+        if ctx.check("list-matrix-vs-own-sum", An.shape == (vb.N, ub.N), mech="list:bilinear:repeated-domain:shape", shape=An.shape, **tag):
+            ctx.close("list-matrix-vs-own-sum", An.toarray(), nrep * Aref, rtol=1e-11, scale=nrep * scale,
+                      mech="list:bilinear:repeated-domain", n=nrep, **tag)
+    ctx.reached("list:repeated-domain:%s" % bk)
+
     nnz = int((np.abs(Ad) > 1e-14 * scale).sum())
     unsym = different or (Ad.shape[0] == Ad.shape[1] and np.abs(Ad - Ad.T).max() > 1e-8 * np.abs(Ad).max())
     if nnz and unsym:
@@ -571,6 +603,8 @@ def jump_terms(ctx, k):
     s_ = skfem.Functional(fun).assemble(ub, cu=ub.interpolate(u), cv=vb.interpolate(v), **dict(kwargs))
     ctx.close("vTAu-equals-functional", v @ (A @ u), s_, rtol=1e-9, scale=float(np.abs(v) @ S @ np.abs(u)) + 1e-300,
               mech="jump-term:vTAu", **tag)
+    Al = skfem.asm(skfem.BilinearForm(bil), [ub], [vb], **dict(kwargs))
+    ctx.check("list-matrix-vs-own-sum", Al.shape == A.shape and (Al != A).nnz == 0, mech="list:bilinear:asm-pair-of-lists-vs-assemble", **tag)
     ctx.reached("trial-side0-test-side1")
     ctx.nontrivial("jump", kind, same_elem, oriented)
 
@@ -679,6 +713,335 @@ def scalar_kinds(ctx, k):
     ctx.nontrivial("scalar-kinds", kind)
 
 
+# ------------------------------------------------------------ lists of bases
+LIST_COMPS = ("cell-partition", "two-sides", "boundary+interior", "cell+facet", "overlap")
+OTHER_MESH = {"tri": ("quad", "ElementQuad1"), "quad": ("tri", "ElementTriP1"), "tet": ("hex", "ElementHex1"),
+              "hex": ("tet", "ElementTetP1"), "line": ("line", "ElementLineP2"), "wedge": ("tet", "ElementTetP1")}
+
+
+def list_entries(comp, mesh, rng, L, line):
+    """One list of integration domains: [(label, factory(elem, **kw) -> basis, own cell index array, is_facet)].
+    The label "repeat-first" means: the very same basis object as entry 0, listed again."""
+    import skfem
+    nt = mesh.t.shape[1]
+    f2t = np.asarray(mesh.f2t)
+    bnd = np.nonzero(f2t[1] == -1)[0]
+    itr = np.nonzero(f2t[1] != -1)[0]
+    idt = (np.int32, np.int64)
+
+    def cellsub(S, label="cell-subset"):
+        S = np.asarray(S).astype(idt[int(rng.integers(2))])
+        return (label, lambda e, S=S, **kw: skfem.CellBasis(mesh, e, elements=S, **kw), S, False)
+
+    def rsub(n, frac):
+        return rng.choice(n, size=max(1, int(n * frac)), replace=False)
+
+    if comp == "cell-partition":
+        L = min(L, nt)
+        if L == 1 and rng.integers(2):
+            return [("cell", lambda e, **kw: skfem.CellBasis(mesh, e, **kw), np.arange(nt), False)]
+        perm = rng.permutation(nt)
+        if rng.integers(2) and nt > L:          # some cells belong to no entry
+            perm = perm[:int(rng.integers(L, nt))]
+        cuts = np.sort(rng.choice(np.arange(1, perm.size), size=L - 1, replace=False)) if L > 1 else []
+        return [cellsub(P) for P in np.split(perm, cuts)]
+    if comp == "overlap":
+        S1 = rsub(nt, 0.5)
+        S2 = np.unique(np.concatenate([rsub(nt, 0.5), S1[:1]]))           # shares at least one cell with S1
+        out = [cellsub(S1), cellsub(S2[rng.permutation(S2.size)])]
+        if L >= 3:
+            out.append(("repeat-first", None, out[0][2], False))
+        return out
+    if comp == "cell+facet":
+        out = [cellsub(rsub(nt, 0.5))]
+        if line or rng.integers(2):
+            out.append(("facet-boundary", lambda e, **kw: skfem.FacetBasis(mesh, e, **kw), f2t[0, bnd], True))
+        else:
+            F = rsub(f2t.shape[1], 0.3).astype(np.int64)
+            out.append(("facet-subset", lambda e, **kw: skfem.FacetBasis(mesh, e, facets=F, **kw), f2t[0, F], True))
+        if L >= 3:
+            out.insert(int(rng.integers(3)), cellsub(rsub(nt, 0.4)))
+        return out
+    if itr.size == 0:
+        raise Skip("no-interior-facets")
+    if comp == "two-sides":
+        if rng.integers(3) == 0:
+            F, kwf = itr, {}
+        else:
+            F = rsub(itr.size, 0.5)
+            F = itr[F].astype(np.int32)
+            kwf = {"facets": F}
+        return [("interior-side%d" % sd, lambda e, sd=sd, **kw: skfem.InteriorFacetBasis(mesh, e, side=sd, **kwf, **kw),
+                 f2t[sd, F], True) for sd in (0, 1)]
+    if comp == "boundary+interior":
+        out = [("facet-boundary", lambda e, **kw: skfem.FacetBasis(mesh, e, **kw), f2t[0, bnd], True),
+               ("interior-side0", lambda e, **kw: skfem.InteriorFacetBasis(mesh, e, side=0, **kw), f2t[0, itr], True)]
+        if L >= 3:
+            out.append(("interior-side1", lambda e, **kw: skfem.InteriorFacetBasis(mesh, e, side=1, **kw), f2t[1, itr], True))
+        return [out[i] for i in rng.permutation(len(out))]
+    raise ValueError(comp)
+
+
+def list_of_bases(ctx, k):
+    """The integration domain given as a LIST of bases (two cell subsets, both sides of interior facets, boundary plus
+    interior facets, cells plus facets, overlapping subsets, the same basis twice; length 1, 2, 3): every spelling the
+    library offers - skfem.asm(form, [bases]), asm(form, [trial bases], [test bases]) (all pairs), the sum of separately
+    assembled results, the sum of .coo_data()/.elemental() blocks converted by .todefault() - gives the SUM over the
+    listed bases of the own quadrature sum, for the bilinear form, the linear form and the functional alike; asm()'s
+    product index w.idx enters all three identically."""
+    import skfem
+    from dataclasses import replace
+    rng = ctx.rng()
+    kind = ("tri", "quad", "tet", "hex", "line", "wedge")[k % 6]
+    a = k // 6
+    comp = LIST_COMPS[a % len(LIST_COMPS)]
+    recs = [r for r in EL.all_for_kind(kind) if not r.skeleton and r.mesh_req != "axis-parallel"]
+    rec = recs[(5 * a + k // 30) % len(recs)]
+    if (not rec.facet_basis or kind == "wedge") and comp not in ("cell-partition", "overlap"):
+        comp = ("cell-partition", "overlap")[a % 2]
+    if kind == "line" and comp in ("two-sides", "boundary+interior"):
+        comp = "cell+facet"
+    L = 1 + (k + a) % 3
+    L = {"cell-partition": L, "two-sides": 2}.get(comp, max(L, 2))
+    # mesh: at most 24 (60) cells so that the dense reference stays small
+    if rec.family == "global" or rec.mesh_req == "affine":
+        from .c09 import wellshaped
+        mc = wellshaped(rng, kind, False)
+    else:
+        mc = G.first_order(rng, kind)
+    cap = ctx.scale(24, 60)
+    if mc.mesh.t.shape[1] > cap:
+        S = np.sort(rng.choice(mc.mesh.t.shape[1], size=cap, replace=False))
+        p, t = G.clean(np.asarray(mc.mesh.p), np.asarray(mc.mesh.t)[:, S].astype(np.int64))
+        mc = replace(mc, mesh=type(mc.mesh)(p, t))
+    if rec.family != "global" and rec.mesh_req == "any" and kind in ("tri", "quad", "tet", "hex") and a % 4 == 3:
+        mc = G.second_order(rng, mc)
+    mesh = mc.mesh
+    entries = list_entries(comp, mesh, rng, L, kind == "line")
+    L = len(entries)
+    any_facet = any(e[3] for e in entries)
+    all_facet = all(e[3] for e in entries)
+    complex_ = (k % 7 == 5)
+    others = [r for r in EL.of_kind(kind) if not r.skeleton and r.name != rec.name and r.mesh_req == "any"
+              and r.family in ("h1", "hdiv", "hcurl") and (r.facet_basis or not any_facet)]
+    different = bool(others) and ((k % 6 >= 3) + a) % 2 == 1 and rec.family in ("h1", "hdiv", "hcurl", "h1vec") \
+        and rec.mesh_req == "any"
+    try:
+        if different:
+            r2 = others[int(rng.integers(len(others)))]
+            order = 2 * max(rec.make().maxdeg, r2.make().maxdeg)
+            order = min(order, {"tri": 19, "tet": 8}.get(kind, order))
+            ubs = [e[1](rec.make(), intorder=order) if e[1] else None for e in entries]
+            vbs = [e[1](r2.make(), intorder=order) if e[1] else None for e in entries]
+            tname = r2.name
+        else:
+            ubs = [e[1](rec.make()) if e[1] else None for e in entries]
+            vbs = list(ubs)
+            tname = rec.name
+    except NotImplementedError:
+        raise Skip("basis-kind-not-implemented-for-element")
+    for i, e in enumerate(entries):
+        if e[0] == "repeat-first":
+            ubs[i], vbs[i] = ubs[0], vbs[0]
+            ctx.reached("list:same-object-twice")
+    labels = [e[0] for e in entries]
+    cells = [np.asarray(e[2]) for e in entries]
+    eds_u = [np.asarray(b.dofs.element_dofs)[:, c] for b, c in zip(ubs, cells)]
+    eds_v = [np.asarray(b.dofs.element_dofs)[:, c] for b, c in zip(vbs, cells)]
+    tag = dict(mesh=type(mesh).__name__, desc=mc.desc, trial=rec.name, test=tname, list=labels, comp=comp,
+               dtype="complex" if complex_ else "float")
+    for b, ed, c in zip(ubs, eds_u, cells):
+        ctx.check("domain-cells", np.array_equal(np.asarray(b.element_dofs), ed) and b.dx.shape[0] == len(c),
+                  mech="basis-domain-cells:list", **tag)
+    ctx.reached("list:len%d" % L)
+    ctx.reached("list:" + comp)
+    if different:
+        ctx.reached("list:trial!=test")
+
+    # operators every listed basis delivers
+    def common_ops(bs):
+        ops = enumerate_ops(bs[0])
+        for b in bs[1:]:
+            have = set(enumerate_ops(b))
+            ops = [o for o in ops if o in have]
+        return ops
+    ops_u, ops_v = common_ops(ubs), common_ops(vbs)
+    ncomp_u = len(ubs[0].basis[0])
+    terms = pick_terms(rng, ops_u, ops_v, all_facet and mesh.dim() > 1, complex_, not different)
+    if (k + a) % 2 == 0:
+        terms[0] = (("jump",), terms[0][1], terms[0][2])
+        ctx.reached("list:idx-coefficient")
+    if not different and k % 4 == 1:
+        terms.insert(1, (("field",), ops_u[int(rng.integers(len(ops_u)))], ops_v[int(rng.integers(len(ops_v)))]))
+    tag["terms"] = sig(terms)
+    bil, lin, fun = make_integrands(terms, ncomp_u)
+    dtype = complex if complex_ else np.float64
+    N, M = ubs[0].N, vbs[0].N
+    z = rng.standard_normal(N)
+    kwargs = {"coef_s": float(rng.integers(1, 9)) / 4}
+    uses_field = any(c[0] == "field" for c, _, _ in terms)
+    if uses_field:
+        kwargs["coef_f"] = z            # a DOF vector: every listed basis interpolates it on its own domain
+        ctx.reached("list:dofvector-parameter")
+    if complex_:
+        u = rng.standard_normal(N) + 1j * rng.standard_normal(N)
+        v = rng.standard_normal(M) + 1j * rng.standard_normal(M)
+    else:
+        u, v = rng.standard_normal(N), rng.standard_normal(M)
+
+    def own_w(b, idx):
+        w = dict(b.default_parameters())
+        w.update(kwargs)
+        w["idx"] = idx
+        if uses_field:
+            w["coef_f"] = b.interpolate(z)      # judged by interpolate-vs-own below
+        return w
+
+    # ---- the oracle: sum over the listed bases of the own quadrature sum
+    cdt = complex if complex_ else float
+    Aref, S = np.zeros((M, N), dtype=cdt), np.zeros((M, N))
+    for i in range(L):
+        Ai, Si = dense_reference(ubs[i], vbs[i], eds_u[i], eds_v[i], terms, own_w(ubs[i], (i,)))
+        Aref = Aref + Ai
+        S = S + Si
+    i0 = int(rng.integers(L))
+    ou = ops_u[int(rng.integers(len(ops_u)))]
+    own = own_interpolate(ubs[i0], eds_u[i0], u, ou)
+    cus = [b.interpolate(u) for b in ubs]
+    cvs = [b.interpolate(v) for b in vbs]
+    ctx.close("interpolate-vs-own", apply_op(cus[i0], ou), own, rtol=1e-11,
+              scale=float(np.abs(own).max()) + float(np.abs(u).max()) * 1e-3, mech=f"interpolate:list:{labels[i0]}", op=ou, **tag)
+    sA = float(S.max()) + 1e-300
+    sb = float((S @ np.abs(u)).max()) + 1e-300
+    big = float(np.abs(v) @ S @ np.abs(u)) + 1e-300
+    bref = Aref @ u
+    sref = v @ bref
+    BF, LF, FN = skfem.BilinearForm(bil, dtype=dtype), skfem.LinearForm(lin, dtype=dtype), skfem.Functional(fun, dtype=dtype)
+    kw = lambda **more: dict(kwargs, **more)
+    vb_arg = (lambda i: (vbs[i],)) if different else (lambda i: ())
+
+    # ---- 2-tensor
+    mats = {}
+    if not different:
+        mats["asm-list"] = lambda: skfem.asm(BF, list(ubs), **kw())
+    if L == 1:
+        mats["asm-pair-of-lists"] = lambda: skfem.asm(BF, [ubs[0]], [vbs[0]], **kw())
+        mats["asm-pair-plain"] = lambda: skfem.asm(BF, ubs[0], vbs[0], **kw())
+    mats["sum-of-assembled"] = lambda: sum(BF.assemble(ubs[i], *vb_arg(i), **kw(idx=(i,))) for i in range(L))
+    mats["coo-sum"] = lambda: sum(BF.coo_data(ubs[i], *vb_arg(i), **kw(idx=(i,))) for i in range(L)).todefault()
+    mats["elemental-sum"] = lambda: sum(BF.elemental(ubs[i], *vb_arg(i), **kw(idx=(i,))) for i in range(L)).todefault()
+    got_A = {}
+    for nm, f in mats.items():
+        A = f()
+        got_A[nm] = A
+        ok = ctx.check("list-matrix-vs-own-sum", getattr(A, "shape", None) == (M, N), mech=f"list:bilinear:{nm}:shape",
+                       shape=getattr(A, "shape", None), **tag)
+        if ok:
+            ctx.close("list-matrix-vs-own-sum", A.toarray(), Aref, rtol=1e-11, scale=sA, mech=f"list:bilinear:{nm}", **tag)
+    ctx.reached("list:coo-sum-2tensor")
+
+    # ---- 1-tensor
+    vecs = {}
+    if not different:
+        vecs["asm-list"] = lambda: skfem.asm(LF, list(vbs), **kw(cu=u))
+    vecs["sum-of-assembled"] = lambda: sum(LF.assemble(vbs[i], **kw(cu=cus[i], idx=(i,))) for i in range(L))
+    vecs["coo-sum"] = lambda: sum(LF.coo_data(vbs[i], **kw(cu=cus[i], idx=(i,))) for i in range(L)).todefault()
+    vecs["elemental-sum"] = lambda: sum(LF.elemental(vbs[i], **kw(cu=cus[i], idx=(i,))) for i in range(L)).todefault()
+    got_b = {}
+    for nm, f in vecs.items():
+        b = f()
+        got_b[nm] = b
+        ok = ctx.check("list-vector-vs-own-sum", getattr(b, "shape", None) == (M,), mech=f"list:linear:{nm}:shape",
+                       shape=getattr(b, "shape", None), **tag)
+        if ok:
+            ctx.close("list-vector-vs-own-sum", b, bref, rtol=1e-10, scale=sb, mech=f"list:linear:{nm}", **tag)
+    ctx.reached("list:coo-sum-1tensor")
+
+    # ---- 0-tensor
+    scs = {}
+    if not different:
+        scs["asm-list"] = lambda: skfem.asm(FN, list(ubs), **kw(cu=u, cv=v))
+        if not complex_:
+            scs["asm-bare-callable"] = lambda: skfem.asm(fun, list(ubs), **kw(cu=u, cv=v))
+    scs["sum-of-assembled"] = lambda: sum(FN.assemble(ubs[i], **kw(cu=cus[i], cv=cvs[i], idx=(i,))) for i in range(L))
+    scs["coo-sum"] = lambda: sum(FN.coo_data(ubs[i], **kw(cu=cus[i], cv=cvs[i], idx=(i,))) for i in range(L)).todefault()
+    scs["elemental-sum"] = lambda: sum(FN.elemental(ubs[i], **kw(cu=cus[i], cv=cvs[i], idx=(i,))).sum() for i in range(L))
+    got_s = {}
+    for nm, f in scs.items():
+        s = f()
+        got_s[nm] = s
+        ok = ctx.check("list-scalar-vs-own-sum", np.ndim(s) == 0, mech=f"list:functional:{nm}:shape", shape=np.shape(s), **tag)
+        if ok:
+            ctx.close("list-scalar-vs-own-sum", s, sref, rtol=1e-10, scale=big, mech=f"list:functional:{nm}", **tag)
+    ctx.reached("list:coo-sum-0tensor")
+
+    # ---- the three form types agree with one another (no reference involved)
+    if not different:
+        A, b, s = got_A["asm-list"], got_b["asm-list"], got_s["asm-list"]
+        ctx.reached("list:asm-all-three")
+    else:
+        A, b, s = got_A["coo-sum"], got_b["coo-sum"], got_s["coo-sum"]
+    if getattr(A, "shape", None) == (M, N) and np.shape(b) == (M,) and np.ndim(s) == 0:
+        ctx.close("list-forms-agree", v @ (A @ u), s, rtol=1e-10, scale=big, mech="list:vTAu-vs-functional", **tag)
+        ctx.close("list-forms-agree", b, A @ u, rtol=1e-10, scale=sb, mech="list:linear-vs-Au", **tag)
+        ctx.close("list-forms-agree", b @ v, s, rtol=1e-10, scale=big, mech="list:bTv-vs-functional", **tag)
+
+    # ---- all pairs (trial basis i, test basis j) of two lists over the same facets: the four blocks of a jump term
+    if comp == "two-sides":
+        Ap = skfem.asm(BF, list(ubs), list(vbs), **kw())
+        Pref, PS = np.zeros((M, N), dtype=cdt), np.zeros((M, N))
+        parts_A, parts_s = [], []
+        for i in range(2):
+            for j in range(2):
+                Aij, Sij = dense_reference(ubs[i], vbs[j], eds_u[i], eds_v[j], terms, own_w(ubs[i], (i, j)))
+                Pref = Pref + Aij
+                PS = PS + Sij
+                parts_A.append(BF.coo_data(ubs[i], vbs[j], **kw(idx=(i, j))))
+                parts_s.append(FN.coo_data(ubs[i], **kw(cu=cus[i], cv=cvs[j], idx=(i, j))))
+        psA = float(PS.max()) + 1e-300
+        pbig = float(np.abs(v) @ PS @ np.abs(u)) + 1e-300
+        if ctx.check("list-matrix-vs-own-sum", getattr(Ap, "shape", None) == (M, N), mech="list:bilinear:asm-all-pairs:shape", **tag):
+            ctx.close("list-matrix-vs-own-sum", Ap.toarray(), Pref, rtol=1e-11, scale=psA, mech="list:bilinear:asm-all-pairs", **tag)
+            ctx.close("list-matrix-vs-own-sum", sum(parts_A).todefault().toarray(), Pref, rtol=1e-11, scale=psA,
+                      mech="list:bilinear:coo-sum-all-pairs", **tag)
+            sp = sum(parts_s).todefault()
+            ctx.close("list-scalar-vs-own-sum", sp, v @ (Pref @ u), rtol=1e-10, scale=pbig, mech="list:functional:coo-sum-all-pairs", **tag)
+            ctx.close("list-forms-agree", v @ (Ap @ u), sp, rtol=1e-10, scale=pbig, mech="list:all-pairs:vTAu-vs-functional", **tag)
+        ctx.reached("list:all-pairs")
+
+    # ---- functionals of the geometry only: any bases may share a list, also bases of different meshes (ex41)
+    okind, oname = OTHER_MESH[kind]
+    om = G.first_order(ctx.rng("other-mesh"), okind).mesh
+    ob = skfem.CellBasis(om, EL.by_name(oname).make()) if rng.integers(2) or okind == "line" \
+        else skfem.FacetBasis(om, EL.by_name(oname).make())
+    cpool = [("one",), ("x", 0), ("xx",), ("h",), ("scalar",), ("jump",)]
+    cs = [cpool[int(i)] for i in rng.choice(len(cpool), size=int(rng.integers(1, 4)), replace=False)]
+    pos = int(rng.integers(L + 1))
+    mixed = list(ubs[:pos]) + [ob] + list(ubs[pos:])
+
+    def cfun(w):
+        return sum(coef_eval(c, w) for c in cs) + 0.0 * w.x[0]
+    ref = sca = 0.0
+    for i, b in enumerate(mixed):
+        w = dict(b.default_parameters())
+        w.update(kwargs, idx=(i,))
+        val = sum(coef_eval(c, w) for c in cs) + 0.0 * np.array(w["x"])[0]
+        ref = ref + float((val * b.dx).sum())
+        sca = sca + float((np.abs(val) * b.dx).sum())
+    got = skfem.asm(skfem.Functional(cfun), mixed, coef_s=kwargs["coef_s"])
+    if ctx.check("list-scalar-vs-own-sum", np.ndim(got) == 0, mech="list:functional:mixed-meshes:shape", shape=np.shape(got), **tag):
+        ctx.close("list-scalar-vs-own-sum", got, ref, rtol=1e-11, scale=sca + 1e-300, mech="list:functional:mixed-meshes",
+                  coefs=[c[0] for c in cs], other=type(ob).__name__ + ":" + type(om).__name__, **tag)
+    ctx.reached("list:mixed-meshes")
+
+    Ad = Aref
+    nnz = int((np.abs(Ad) > 1e-14 * sA).sum())
+    if nnz and L >= 1:
+        ctx.nontrivial("list", type(mesh).__name__, rec.name, tname, comp, L, str(sig(terms)), str(np.dtype(dtype)))
+    ctx.sample(dict(tag, N_trial=int(N), N_test=int(M), cells=[int(len(c)) for c in cells], nnz=nnz,
+                    functional=complex(sref) if complex_ else float(sref)), per_family=2)
+
+
 def fam(kind):
     return lambda ctx, k: one_case(ctx, k, kind)
 
@@ -694,3 +1057,4 @@ FAMILIES.append(Family("trilinear", trilinear, 8, 160))
 FAMILIES.append(Family("bare-fields", bare_fields, 10, 200))
 FAMILIES.append(Family("jump-terms", jump_terms, 16, 480, budget={"quick": 40, "thorough": 400}))
 FAMILIES.append(Family("scalar-kinds", scalar_kinds, 4, 80))
+FAMILIES.append(Family("basis-lists", list_of_bases, 36, 1440, budget={"quick": 40, "thorough": 600}))
